@@ -5,6 +5,7 @@ import (
 	"context"
 	"encoding/json"
 	"fmt"
+	"net"
 	"os"
 	"os/exec"
 	"path/filepath"
@@ -32,6 +33,10 @@ type Script struct {
 	Realtime   bool   `json:"realtime,omitempty"`   // no synctest bubble: wall-clock tickers and time-outs
 	DropFirst  int    `json:"drop_first,omitempty"` // the server silently ignores this many requests (real time only)
 	Phased     bool   `json:"phased,omitempty"`     // incarnation 0 carries a per-phase outage script; judged un-killed only
+	// KillFromShutdown: crash points of incarnation 0 are enumerated from its graceful Stop() on
+	// (the steps before it are the business of the other scripts); later incarnations completely
+	KillFromShutdown bool `json:"kill_from_shutdown,omitempty"`
+	NoKills          bool `json:"no_kills,omitempty"` // judged un-killed only
 }
 
 func (s *Script) String() string {
@@ -45,7 +50,20 @@ func (s *Script) String() string {
 		if in.Phases != nil {
 			down = "phases " + in.Phases.String()
 		}
-		parts = append(parts, fmt.Sprintf("[%s | down=%s | %s]", strings.Join(st, " "), down, in.End))
+		end := in.End
+		if in.Shutdown != nil {
+			end += " " + in.Shutdown.label()
+		}
+		if in.Limiter != nil {
+			end += fmt.Sprintf(" limiter=%g/s,burst=%d", in.Limiter.RPS, in.Limiter.Burst)
+		}
+		if in.Realtime {
+			end += " real-time"
+		}
+		if in.LateMs > 0 {
+			end += fmt.Sprintf(" answers-%dms-late", in.LateMs)
+		}
+		parts = append(parts, fmt.Sprintf("[%s | down=%s | %s]", strings.Join(st, " "), down, end))
 	}
 	return strings.Join(parts, " -> ")
 }
@@ -74,8 +92,14 @@ type incResult struct {
 
 type worker struct {
 	srv  *acctServer
+	hang *net.UDPConn // a port that swallows every datagram and never answers
 	tmp  string
 	nrun int
+}
+
+func (w *worker) close() {
+	w.srv.close()
+	w.hang.Close()
 }
 
 var childrenRun int64
@@ -89,7 +113,19 @@ func newWorker(base string, i int) (*worker, error) {
 	if err := os.MkdirAll(d, 0o755); err != nil {
 		return nil, err
 	}
-	return &worker{srv: s, tmp: d}, nil
+	h, err := net.ListenUDP("udp4", &net.UDPAddr{IP: net.IPv4(127, 0, 0, 1), Port: 0})
+	if err != nil {
+		return nil, err
+	}
+	go func() {
+		buf := make([]byte, 4096)
+		for {
+			if _, _, err := h.ReadFromUDP(buf); err != nil {
+				return
+			}
+		}
+	}()
+	return &worker{srv: s, hang: h, tmp: d}, nil
 }
 
 func readTree(dir string) map[string]string {
@@ -147,7 +183,7 @@ func (w *worker) runChild(sc *Script, dir string, inc Inc, killPoint string, kil
 	jpath := filepath.Join(w.tmp, fmt.Sprintf("journal-%d.jsonl", w.nrun))
 	spath := filepath.Join(w.tmp, fmt.Sprintf("spec-%d.json", w.nrun))
 	os.Remove(jpath)
-	spec := ChildSpec{Dir: dir, Journal: jpath, AcctPort: w.srv.port, Secret: secret, NASID: nasID, MaxRetries: sc.MaxRetries,
+	spec := ChildSpec{Dir: dir, Journal: jpath, AcctPort: w.srv.port, HangPort: w.hang.LocalAddr().(*net.UDPAddr).Port, Secret: secret, NASID: nasID, MaxRetries: sc.MaxRetries,
 		Sessions: sc.Sessions, Inc: inc, KillPoint: killPoint, KillOcc: killOcc, Realtime: sc.Realtime || os.Getenv("C08_REALTIME") != ""}
 	b, _ := json.Marshal(spec)
 	os.WriteFile(spath, b, 0o644)
@@ -159,7 +195,9 @@ func (w *worker) runChild(sc *Script, dir string, inc Inc, killPoint string, kil
 	var stderr bytes.Buffer
 	cmd.Stdout = &stderr
 	cmd.Stderr = &stderr
+	w.srv.setLate(time.Duration(inc.LateMs) * time.Millisecond)
 	err := cmd.Run()
+	w.srv.setLate(0)
 	res := incResult{Def: inc}
 	if ctx.Err() != nil {
 		res.TimedOut = true
@@ -248,6 +286,16 @@ func pointsOf(j []JEv) []pointOcc {
 		}
 	}
 	return out
+}
+
+// pointsFromShutdown lists the points passed after the graceful Stop() was called.
+func pointsFromShutdown(j []JEv) []pointOcc {
+	for i, e := range j {
+		if e.Ev == "shutdown-begin" {
+			return pointsOf(j[i:])
+		}
+	}
+	return nil
 }
 
 // reference is the un-killed run of a script with a snapshot after every incarnation.
